@@ -123,7 +123,7 @@ func (e *Engine) rootsFor(prop string) (jobs []rootJob, problems []string) {
 	addJob := func(j rootJob) {
 		k := e.shortName(j.fn) + "|"
 		if j.fc != nil {
-			k += j.fc.Kind + j.fc.Key
+			k += j.fc.Kind + j.fc.Key + j.fc.CaseName
 		}
 		if seen[k] {
 			return
@@ -151,6 +151,11 @@ func (e *Engine) rootsFor(prop string) (jobs []rootJob, problems []string) {
 			continue
 		}
 		addJob(rootJob{fn: fn, fc: fc, reason: "contract"})
+		for _, alt := range fc.Alts {
+			if prop == "" || contractHasTag(alt, prop) {
+				addJob(rootJob{fn: fn, fc: alt, reason: "contract case " + alt.CaseName})
+			}
+		}
 	}
 	keys = keys[:0]
 	for k := range e.contracts.Ifaces {
@@ -283,6 +288,11 @@ func (e *Engine) generate(prop string, only func(*ssa.Function) bool) *runResult
 			continue
 		}
 		vc, rep := e.verifyFunction(j.fn, j.fc, j.names)
+		if j.fc != nil && j.fc.CaseName != "" {
+			for _, o := range vc.obs {
+				o.Name = strings.Replace(o.Name, e.shortName(j.fn), e.shortName(j.fn)+"/"+j.fc.CaseName, 1)
+			}
+		}
 		if j.fc != nil && j.fc.Kind == "iface" {
 			rep.Contract += " (" + j.reason + ")"
 			for _, o := range vc.obs {
@@ -343,6 +353,15 @@ func (e *Engine) fieldWriters(field string) []string {
 			for _, ins := range b.Instrs {
 				for _, sh := range e.instrShape(ins) {
 					if sh == "store "+field {
+						// initialising a field of an object allocated right here (composite literal,
+						// new) is construction, not mutation
+						if stv, ok := ins.(*ssa.Store); ok {
+							if fa, ok := stv.Addr.(*ssa.FieldAddr); ok {
+								if _, isAlloc := fa.X.(*ssa.Alloc); isAlloc {
+									continue
+								}
+							}
+						}
 						found = true
 					}
 				}
